@@ -451,8 +451,10 @@ func (tk *tokenizer) consumeUrl(pos Pos) (Token, Token) {
 badURL:
 	// http://drafts.csswg.org/csswg/css-syntax/#consume-the-remnants-of-a-bad-url0
 	for tk.pos < L {
-		if bytes.HasPrefix(tk.src[tk.pos:], []byte("\\)")) {
-			tk.pos += 2
+		if tk.src[tk.pos] == '\\' && tk.pos+1 < L && tk.src[tk.pos+1] != '\n' {
+			// valid escape: the escaped code point cannot end the url
+			_, w := utf8.DecodeRune(tk.src[tk.pos+1:])
+			tk.pos += 1 + w
 		} else if tk.src[tk.pos] == ')' {
 			tk.pos += 1
 			break
